@@ -300,7 +300,7 @@ theorem parent?_ne {f : Forest} (w : f.W) {h q : Nat} (e : f.parent? h = some q)
   have hn : (handles (.node c.parent v (c.left ++ c.self :: c.right))).Nodup :=
     List.Sublist.nodup (findList?_sublist _ _ _ hg) w.nodup
   unfold handles at hn
-  rw [handlesList_append] at hn
+  rw [fa_handlesList_append] at hn
   have : c.parent ∈ handlesList c.left ++ handlesList (c.self :: c.right) := by
     refine List.mem_append_right _ ?_
     unfold handlesList
